@@ -299,7 +299,11 @@ class TlSchemas:
                             raise TlError(f'vector length {length} exceeds the remaining {len(data) - i} bytes')
                         result[field] = []
                         for _ in range(length):
-                            if sch:
+                            if subtype in self.base_types:
+                                # an element of a base type is read like a field of that type
+                                deser, j = self.deserialize(data[i:], False, {'': subtype})
+                                deser = deser['']
+                            elif sch:
                                 deser, j = self.deserialize(data[i:], False, sch.args)
                             else:
                                 deser, j = self.deserialize(data[i:], True)
